@@ -16,6 +16,7 @@ func init() {
 }
 
 func runC08(c *Ctx) {
+	defer checkFactoriesWireCollaborators(c, "C08.R8")
 	defer checkFactoriesUseGivenStrategy(c, "C08.R7")
 	c08R1(c)
 	c08R2345(c)
